@@ -1063,6 +1063,9 @@ for _p in ("C28", "C29"):
     ADDENDA[_p] = ADDENDA.get(_p, "") + " Every store into the clock keeps the clock's representation (tick clock: a number, datetime clock: a datetime)."
 ADDENDA["C11"] = ADDENDA.get("C11", "") + (" The scenario 'a source notifies from inside its subscribe call' is also run inside the handlers of the inner "
                                             "sequences (a completed inner starts the next queued one).")
+for _p in ("C05", "C06", "C10", "C11", "C12", "C13", "C15", "C16", "C17", "C18", "C19", "C24"):
+    ADDENDA[_p] = ADDENDA.get(_p, "") + (" The implicit callees of every operator proof - Observable.subscribe (the guard around the subscribe function) and "
+                                         "the auto-detaching observer it wraps the subscriber in - are re-proved inside this check.")
 for _p, _t in ADDENDA.items():
     if _p in CHECKS:
         CHECKS[_p] = dict(CHECKS[_p], text=CHECKS[_p]["text"] + _t)
